@@ -41,7 +41,7 @@ func init() {
 			m.onIdle = args[0]
 			return nil
 		},
-		"vCancel":     hCancel,
+		"vCancel": hCancel,
 		"vClearWritten": func(m *machine, fr *frame, args []value) value {
 			delete(m.writers, "w:"+concreteStr(args[0], "vClearWritten name"))
 			return nil
